@@ -84,22 +84,25 @@ R.contract(M + "main",
                "callarg('anonymize_files', 'preserve_suffix_v6') == argv.preserve_host_bits)" % ANYOPT,
                # --preserve-private-addresses == listing the three RFC 1918 networks as preserved addresses
                "implies((%s) and argv.preserve_private_addresses and argv.preserve_addresses is None, "
+               "callarg('anonymize_files', 'preserve_networks') is not None and "
                "seq(callarg('anonymize_files', 'preserve_networks')) == cat(%s))" % (ANYOPT, RFC1918),
                "implies((%s) and not argv.preserve_private_addresses and argv.preserve_addresses is None, "
                "callarg('anonymize_files', 'preserve_networks') is None)" % ANYOPT,
                # ... in addition to the addresses listed with --preserve-addresses, which are always passed on
                "implies((%s) and argv.preserve_private_addresses and argv.preserve_addresses is not None, "
+               "callarg('anonymize_files', 'preserve_networks') is not None and "
                "seq(callarg('anonymize_files', 'preserve_networks')) == SplitComma(argv.preserve_addresses) + cat(%s))"
                % (ANYOPT, RFC1918),
                "implies((%s) and not argv.preserve_private_addresses and argv.preserve_addresses is not None, "
+               "callarg('anonymize_files', 'preserve_networks') is not None and "
                "seq(callarg('anonymize_files', 'preserve_networks')) == SplitComma(argv.preserve_addresses))" % ANYOPT,
            ] + [
                # every comma-separated option reaches anonymize_files as the list of its items, or as None when absent
                c for opt, par in (("as_numbers", "as_numbers"), ("reserved_words", "reserved_words"),
                                   ("sensitive_words", "sensitive_words"), ("preserve_prefixes", "preserve_prefixes"))
                for c in ("implies((%s) and argv.%s is None, callarg('anonymize_files', '%s') is None)" % (ANYOPT, opt, par),
-                         "implies((%s) and argv.%s is not None, seq(callarg('anonymize_files', '%s')) == "
-                         "SplitComma(argv.%s))" % (ANYOPT, opt, par, opt))
+                         "implies((%s) and argv.%s is not None, callarg('anonymize_files', '%s') is not None and "
+                         "seq(callarg('anonymize_files', '%s')) == SplitComma(argv.%s))" % (ANYOPT, opt, par, par, opt))
            ])
 
 R.contract(M + "host_bits",
